@@ -1342,7 +1342,9 @@ func (r *Raft) sendRequestVote(id string, address string, votes *int, prevote bo
 	}
 
 	// Ensure this response is not stale. It is possible that this node has started another election.
-	if r.currentTerm > request.Term {
+	// A prevote asks for the term that follows the current one: if the current term has changed
+	// since the request was sent, the response belongs to a prevote of the past.
+	if r.currentTerm > request.Term || (prevote && r.currentTerm+1 != request.Term) {
 		return
 	}
 
